@@ -33,12 +33,126 @@ const (
 	styleTop = iota // func fN() { … }
 	styleLit        // a function literal at every place it is called or deferred
 	styleVar        // fN := func() { … } in the function that uses it, called through the variable
+	// a native function of package h wherever the function is called or deferred, for bodies of
+	// the shapes [] h.Nop(), [panic v] h.Panic(v), [print x] h.Print(x), [Stop k] h.Stop(k),
+	// [Fatal v] h.Fatal(v) and [call g] h.Call(g) / h.CallN(1, g): a native calling back g
+	styleNative
 )
+
+// panic values from errBase on stand for run-time errors raised by the interpreted code itself
+const errBase = 900000
+
+var errTexts = map[int]string{
+	errBase + 1: "runtime error: integer divide by zero",
+	errBase + 2: "assignment to entry in nil map",
+	errBase + 3: "runtime error: index out of range [3] with length 0",
+}
+
+// valCode maps the text of a panic value, as printed, to its number in the abstract program.
+func valCode(text string) string {
+	for c, t := range errTexts {
+		if t == text {
+			return strconv.Itoa(c)
+		}
+	}
+	if _, err := strconv.Atoi(text); err == nil {
+		return text
+	}
+	return "?" + strings.NewReplacer(" ", "_", ",", ";").Replace(text)
+}
+
+func valText(code string) string {
+	if n, err := strconv.Atoi(code); err == nil {
+		if t, ok := errTexts[n]; ok {
+			return t
+		}
+	}
+	return code
+}
+
+// nativeShape reports whether function i can be written as a native function.
+func (p *prog) nativeShape(i int) bool {
+	b := p.Funcs[i]
+	if i == 0 || len(b) > 1 {
+		return false
+	}
+	if len(b) == 0 {
+		return true
+	}
+	switch b[0].Op {
+	case opPanic:
+		return b[0].Arg < errBase
+	case opPrint, opStop, opFatal:
+		return true
+	case opCall:
+		// the callback runs in a VM of its own and only the newest of its panics comes back
+		// (known difference from gc, finding callback-chain-flattened): generated callbacks
+		// raise at most one panic; a replay may force the style
+		return p.forceNative || p.maxPanics(b[0].Arg) <= 1
+	}
+	return false
+}
+
+// maxPanics bounds the number of panics raised by one call of function i.
+func (p *prog) maxPanics(i int) int {
+	n := 0
+	for _, in := range p.Funcs[i] {
+		switch in.Op {
+		case opPanic, opRepanic:
+			n++
+		case opCall, opDefer:
+			n += p.maxPanics(in.Arg)
+		}
+		if n > 1000 {
+			return n
+		}
+	}
+	return n
+}
+
+// setStyles chooses how every function is written.
+func (p *prog) setStyles(r *proto.Rand) {
+	for i := 1; i < len(p.Funcs); i++ {
+		p.Style[i] = r.Intn(3)
+		if p.nativeShape(i) && r.Intn(2) == 0 {
+			p.Style[i] = styleNative
+		}
+	}
+}
+
+// styleSuffix encodes the way the program is written, for replays: "# <style digits> <native panic values>".
+func (p *prog) styleSuffix() string {
+	var b strings.Builder
+	b.WriteString(" # ")
+	for _, st := range p.Style {
+		b.WriteString(strconv.Itoa(st))
+	}
+	b.WriteString(" ")
+	any := false
+	for v, n := range p.Native {
+		if n {
+			if any {
+				b.WriteString(",")
+			}
+			b.WriteString(strconv.Itoa(v))
+			any = true
+		}
+	}
+	if !any {
+		b.WriteString("-")
+	}
+	if p.forceNative {
+		b.WriteString(" force")
+	}
+	return b.String()
+}
 
 type prog struct {
 	Funcs  [][]instr
 	Style  []int  // per function
 	Native []bool // per panic site (indexed by the panic value): written as h.Panic(v) / t.Panic(v)
+
+	forceNative bool // replay of a recorded finding: native style also for callbacks that panic more than once
 }
 
 func hasArg(op string) bool {
@@ -66,6 +180,44 @@ func (p *prog) abstract() string {
 }
 
 func parseAbstract(s string) (*prog, error) {
+	suffix := ""
+	if i := strings.Index(s, " # "); i >= 0 {
+		s, suffix = s[:i], s[i+3:]
+	}
+	p, err := parseAbstract1(s)
+	if err != nil || suffix == "" {
+		return p, err
+	}
+	f := strings.Fields(suffix)
+	if len(f) == 3 && f[2] == "force" {
+		p.forceNative = true
+		f = f[:2]
+	}
+	if len(f) != 2 || len(f[0]) != len(p.Funcs) {
+		return nil, fmt.Errorf("bad style suffix")
+	}
+	for i, ch := range f[0] {
+		p.Style[i] = int(ch - '0')
+		if p.Style[i] == styleNative && !p.nativeShape(i) {
+			p.Style[i] = styleTop
+		}
+	}
+	if f[1] != "-" {
+		for _, w := range strings.Split(f[1], ",") {
+			v, err := strconv.Atoi(w)
+			if err != nil || v < 0 || v > 1<<20 {
+				return nil, fmt.Errorf("bad native list")
+			}
+			for len(p.Native) <= v {
+				p.Native = append(p.Native, false)
+			}
+			p.Native[v] = true
+		}
+	}
+	return p, nil
+}
+
+func parseAbstract1(s string) (*prog, error) {
 	t := strings.Fields(s)
 	pos := 0
 	next := func() (string, error) {
@@ -207,8 +359,12 @@ func tryGenProg(r *proto.Rand, stopFatal bool) *prog {
 			case 4:
 				in = instr{opRet, 0}
 			case 5:
-				in = instr{opPanic, nextVal}
-				nextVal++
+				if r.Intn(8) == 0 {
+					in = instr{opPanic, errBase + 1 + r.Intn(3)}
+				} else {
+					in = instr{opPanic, nextVal}
+					nextVal++
+				}
 			case 6:
 				in = instr{opRecover, 0}
 			case 7:
@@ -242,8 +398,8 @@ func tryGenProg(r *proto.Rand, stopFatal bool) *prog {
 	for i := range p.Native {
 		p.Native[i] = r.Intn(5) == 0
 	}
+	p.setStyles(r)
 	for i := 1; i < n; i++ {
-		p.Style[i] = r.Intn(3)
 		if p.Style[i] == styleLit && cost[i] > 40 {
 			p.Style[i] = styleTop // keep the source small
 		}
@@ -257,7 +413,7 @@ func tryGenProg(r *proto.Rand, stopFatal bool) *prog {
 func (p *prog) render(prefix, hpkg string) string {
 	var b strings.Builder
 	pr := prefix + "pr"
-	fmt.Fprintf(&b, "func %s(v interface{}) {\n\tif v == nil {\n\t\tprintln(\"R nil\")\n\t\treturn\n\t}\n\tprintln(\"R\", v.(int))\n}\n\n", pr)
+	fmt.Fprintf(&b, "func %s(v interface{}) {\n\tif v == nil {\n\t\tprintln(\"R nil\")\n\t\treturn\n\t}\n\tif e, ok := v.(error); ok {\n\t\tprintln(\"R\", e.Error())\n\t\treturn\n\t}\n\tprintln(\"R\", v.(int))\n}\n\n", pr)
 	name := func(i int) string {
 		if i == 0 {
 			if prefix == "" {
@@ -274,9 +430,10 @@ func (p *prog) render(prefix, hpkg string) string {
 	body = func(i int, ind string) string {
 		var s strings.Builder
 		declared := map[int]bool{}
-		ref := func(j int) string {
+		// value: an expression for function j as a function value
+		value := func(j int) string {
 			switch p.Style[j] {
-			case styleLit:
+			case styleLit, styleNative:
 				return lit(j, ind)
 			case styleVar:
 				v := fmt.Sprintf("v%d", j)
@@ -288,28 +445,61 @@ func (p *prog) render(prefix, hpkg string) string {
 			}
 			return name(j)
 		}
+		// call: the call expression for function j
+		call := func(j int) string {
+			if p.Style[j] != styleNative {
+				return value(j) + "()"
+			}
+			if len(p.Funcs[j]) == 0 {
+				return "h.Nop()"
+			}
+			in := p.Funcs[j][0]
+			switch in.Op {
+			case opPanic:
+				return fmt.Sprintf("h.Panic(%d)", in.Arg)
+			case opPrint:
+				return fmt.Sprintf("h.Print(%d)", in.Arg)
+			case opStop:
+				return fmt.Sprintf("h.Stop(%d)", in.Arg)
+			case opFatal:
+				return fmt.Sprintf("h.Fatal(%d)", in.Arg)
+			case opCall:
+				if j%2 == 0 {
+					return "h.CallN(1, " + value(in.Arg) + ")"
+				}
+				return "h.Call(" + value(in.Arg) + ")"
+			}
+			return value(j) + "()"
+		}
 		for _, in := range p.Funcs[i] {
 			switch in.Op {
 			case opPrint:
 				fmt.Fprintf(&s, "%sprintln(\"O\", %d)\n", ind, in.Arg)
 			case opCall:
-				f := ref(in.Arg)
-				fmt.Fprintf(&s, "%s%s()\n", ind, f)
+				f := call(in.Arg)
+				fmt.Fprintf(&s, "%s%s\n", ind, f)
 			case opDefer:
-				f := ref(in.Arg)
-				fmt.Fprintf(&s, "%sdefer %s()\n", ind, f)
+				f := call(in.Arg)
+				fmt.Fprintf(&s, "%sdefer %s\n", ind, f)
 			case opDeferRec:
 				fmt.Fprintf(&s, "%sdefer recover()\n", ind)
 			case opRet:
 				fmt.Fprintf(&s, "%sif true {\n%s\treturn\n%s}\n", ind, ind, ind)
 			case opPanic:
-				if in.Arg < len(p.Native) && p.Native[in.Arg] {
+				switch {
+				case in.Arg == errBase+1:
+					fmt.Fprintf(&s, "%s{\n%s\tz := 0\n%s\tz = 1 / z\n%s\t_ = z\n%s}\n", ind, ind, ind, ind, ind)
+				case in.Arg == errBase+2:
+					fmt.Fprintf(&s, "%s{\n%s\tvar m map[int]int\n%s\tm[1] = 1\n%s}\n", ind, ind, ind, ind)
+				case in.Arg == errBase+3:
+					fmt.Fprintf(&s, "%s{\n%s\tvar a []int\n%s\ta[3] = 1\n%s}\n", ind, ind, ind, ind)
+				case in.Arg < len(p.Native) && p.Native[in.Arg]:
 					if in.Arg%2 == 0 {
 						fmt.Fprintf(&s, "%sh.Panic(%d)\n", ind, in.Arg)
 					} else {
 						fmt.Fprintf(&s, "%s{\n%s\tvar t h.T\n%s\tt.Panic(%d)\n%s}\n", ind, ind, ind, in.Arg, ind)
 					}
-				} else {
+				default:
 					fmt.Fprintf(&s, "%sif true {\n%s\tpanic(%d)\n%s}\n", ind, ind, in.Arg, ind)
 				}
 			case opRecover:
@@ -317,9 +507,9 @@ func (p *prog) render(prefix, hpkg string) string {
 			case opRepanic:
 				fmt.Fprintf(&s, "%sif r := recover(); r != nil {\n%s\t%s(r)\n%s\tpanic(r)\n%s} else {\n%s\t%s(nil)\n%s}\n", ind, ind, pr, ind, ind, ind, pr, ind)
 			case opStop:
-				fmt.Fprintf(&s, "%sprintln(\"S\")\n%sh.Stop(%d)\n", ind, ind, in.Arg)
+				fmt.Fprintf(&s, "%sh.Stop(%d)\n", ind, in.Arg)
 			case opFatal:
-				fmt.Fprintf(&s, "%sprintln(\"S\")\n%sh.Fatal(%d)\n", ind, ind, in.Arg)
+				fmt.Fprintf(&s, "%sh.Fatal(%d)\n", ind, in.Arg)
 			}
 		}
 		return s.String()
@@ -336,4 +526,3 @@ func (p *prog) render(prefix, hpkg string) string {
 	}
 	return head + b.String()
 }
-
